@@ -15,6 +15,16 @@ import (
 
 func ruleBTSentinel(c *Ctx) {
 	c.Rule("BT-SENTINEL", "a schema field absent from the struct is marked with the very constant the record reader tests for, and is then skipped — never decoded — while present fields are decoded, never skipped", 3)
+	if rf := recordByFold(c.P); rf.ok {
+		P := c.P
+		key := "avro.recordCodec/sentinel"
+		pos := P.pos(rf.readFn.Pos())
+		msg := "the record builder folded for schema (a, gone, b, n1, n2, c) and struct {B, A, X, N1, N2, C chan}, then Read and Skip folded on the codec it returns: " + rf.detail
+		c.Check(rf.problems["sentinel"] == "", key, pos, msg, rf.problems["sentinel"])
+		c.Check(rf.problems["absent"] == "" && rf.problems["read"] == "", key+"/absent->Skip", pos, msg, rf.problems["absent"]+rf.problems["read"])
+		c.Check(rf.problems["present"] == "" && rf.problems["read"] == "", key+"/present->Read", pos, msg, rf.problems["present"]+rf.problems["read"])
+		return
+	}
 	P := c.P
 	bt := getBT(P)
 	ct := bt.byType["avro.recordCodec"]
@@ -987,6 +997,14 @@ func exprMentions(v ssa.Value, sub string, d int) bool {
 // if nothing but the builder's per-field append ever writes it.
 func ruleRecList(c *Ctx) {
 	c.Rule("REC-LIST", "the record codec's field list is built by appending exactly one entry per schema field, in the builder's loop over the schema's fields, and is never rewritten, re-ordered or merged afterwards", 2)
+	if rf := recordByFold(c.P); rf.ok {
+		P := c.P
+		pos := P.pos(rf.builder.Pos())
+		msg := "the record builder folded for schema (a, gone, b, n1, n2, c) and struct {B, A, X, N1, N2, C chan}: " + rf.detail
+		c.Check(rf.problems["list"] == "", fnKey(rf.builder)+"/one-entry-per-schema-field-in-order", pos, msg, rf.problems["list"])
+		c.Check(rf.problems["skip"] == "" && rf.problems["read"] == "", "avro.recordCodec/every-field-in-order", pos, "Read and Skip folded on that codec visit each entry once, in order", rf.problems["skip"]+rf.problems["read"])
+		return
+	}
 	P := c.P
 	rfT, _, _ := recordFieldRoles(P)
 	if !c.Anchor(rfT != nil, "record field entry type (one Codec field, one uintptr offset)") {
